@@ -101,7 +101,9 @@ def catalogue(G, rng, extra):
         qs.append(('gfa.segment_connected_component(%r)' % n, lambda n=n: G.segment_connected_component(n)))
         qs.append(('gfa.is_cut_segment(%r)' % n, lambda n=n: G.is_cut_segment(n)))
         qs.append(('gfa.linear_path(%r)' % n, lambda n=n: G.linear_path(n)))
-    for l in rng.sample(lines, min(8, len(lines))):
+    groups = [l for l in lines if l.record_type in ('O', 'U', 'P')]
+    others = [l for l in lines if l.record_type not in ('O', 'U', 'P')]
+    for l in groups[:6] + rng.sample(others, min(8, len(others))):
         t = str(l) if l.record_type in 'LC' else str(l)[:30]
         for n, call in zero_arg_names(l, LINE_MUTATORS):
             qs.append(('%s .%s' % (t, n), (lambda l=l, n=n, call=call: getattr(l, n)() if call else getattr(l, n))))
@@ -205,6 +207,10 @@ def gen_case(rng, i):
     vlevel = rng.choice([0, 1, 1, 2, 3])
     if version == 'gfa1':
         lines, info = gen.gen_gfa1(rng)
+    elif i % 3 == 0:
+        # documents rich in ordered and unordered groups (edges in both orientations, nested groups, implicit elements)
+        from .c17 import gen_case as groups_case
+        lines = [l for l in groups_case(rng, i)['lines']]
     else:
         lines, info = gen.gen_gfa2(rng)
     return {'kind': 'queries', 'version': version, 'vlevel': vlevel, 'lines': lines, 'seed': rng.randrange(10 ** 9),
@@ -226,6 +232,7 @@ def run_case(case):
         if r[0] == 'ok':
             extra.append(r[1])
     qs = catalogue(G, rng, extra)
+    must = [q for q in qs if any(k in q[0] for k in ('.captured_', '.induced_', '.links', '.items'))]
     if case['version'] == 'gfa1':
         # F57: converting a connected L/C line without ID tag to GFA2 stores a generated ID tag on it
         bare = any(l.record_type in 'LC' and l.get('ID') is None for l in G.lines)
@@ -236,7 +243,7 @@ def run_case(case):
                 (label.endswith('.to_gfa2') or label.endswith('.to_gfa2_s') or label.endswith('(gfa2)'))
         qs = [q for q in qs if not f57(q[0])]
     rng.shuffle(qs)
-    qs = qs[:case['nq']]
+    qs = must[:30] + qs[:case['nq']]
     s0 = snapshot(G, extra)
     out = []
     returned = 0
